@@ -3,6 +3,7 @@ package sa
 import (
 	"fmt"
 	"go/types"
+	"sort"
 
 	"golang.org/x/tools/go/ssa"
 )
@@ -308,6 +309,10 @@ func (c *Ctx) c04AllSets() {
 	if copyFn := c.Func(c.Client, "(*Line).Copy"); r.Anchor("R8", "(*Line).Copy", copyFn != nil) {
 		c.perInvocationCopy("R8", copyFn)
 	}
+	r.Rule("R10", "the line the three sets choose their handlers by is never reused while a dispatch may still read it: every value sent on the inbound queue is deep-fresh (= C15.R3); the background set reads Line.Cmd on a detached goroutine after the event loop has moved on")
+	c.freshParsedLineRule("R10")
+	r.Rule("R11", "registering or removing a handler takes no lock but the handler set's own: in everything Handle, HandleBG, HandleFunc and a Remover's Remove reach by plain calls, the only lock acquired is the set's (the teardown holds the connection mutex while it waits for a running handler, so a registration that touched it from inside a handler would deadlock the disconnect)")
+	c.registrationLocksRule("R11")
 	cd := a.ConnDispatch
 	if !r.Anchor("R9", "Conn.dispatch", cd != nil) {
 		return
@@ -349,4 +354,71 @@ func (c *Ctx) c04AllSets() {
 		}
 		r.Add("R9", "all-sets:"+c.setName(set), c.Pos(cd.Pos()), c.FuncKey(cd), "every event is dispatched on the "+c.setName(set)+" set", okAll, why)
 	}
+}
+
+// registrationLocksRule: the registration / removal API acquires only the
+// handler-set lock.
+func (c *Ctx) registrationLocksRule(rule string) {
+	r := c.R
+	funcs := c.clientFuncs()
+	acq := c.Acquires(funcs)
+	own := c.lockFieldName(c.Client, "hSet")
+	var apis []*ssa.Function
+	for _, n := range []string{"(*Conn).Handle", "(*Conn).HandleBG", "(*Conn).HandleFunc", "(*hNode).Remove"} {
+		if f := c.Func(c.Client, n); f != nil {
+			apis = append(apis, f)
+		}
+	}
+	r.Floor(rule, "registration / removal API functions", len(apis), 3)
+	for _, f := range apis {
+		var others []string
+		for l := range acq[f] {
+			if l != own {
+				others = append(others, l)
+			}
+		}
+		sort.Strings(others)
+		r.Add(rule, "registration-locks:"+c.FuncKey(f), c.Pos(f.Pos()), c.FuncKey(f), "only the handler set's own lock is taken", len(others) == 0, fmt.Sprintf("also acquires %v", others))
+	}
+}
+
+// handlerKeysRule: C04.R1 (lower-cased keys on every string-keyed map of the
+// handler set) and C05.R5 (dispatch walks a fresh snapshot built under the
+// lock), under another property's rule id.
+func (c *Ctx) handlerKeysRule(rule string) {
+	r := c.R
+	setVar := c.FieldVar(c.Client, "hSet", "set")
+	if !r.Anchor(rule, "hSet.set", setVar != nil) {
+		return
+	}
+	funcs := c.clientFuncs()
+	memo := map[*types.Var]int{}
+	n := 0
+	for _, fn := range funcs {
+		funcInstrs(fn, func(in ssa.Instruction) {
+			var m, key ssa.Value
+			switch t := in.(type) {
+			case *ssa.Lookup:
+				m, key = t.X, t.Index
+			case *ssa.MapUpdate:
+				m, key = t.Map, t.Key
+			case *ssa.Call:
+				if b, ok := t.Call.Value.(*ssa.Builtin); ok && b.Name() == "delete" {
+					m, key = t.Call.Args[0], t.Call.Args[1]
+				}
+			}
+			if m == nil {
+				return
+			}
+			fv, base := loadedField(m)
+			if fv == nil || (fv != setVar && !c.isHSetStringMap(fv, base)) {
+				return
+			}
+			n++
+			ok, why := c.normalised(key, memo)
+			r.Add(rule, "key:"+c.FuncKey(fn)+":"+fv.Name()+":"+opName(in), c.InstrPos(in), c.FuncKey(fn), "every event-name-keyed map of the handler set uses lower-cased keys", ok, why)
+		})
+	}
+	r.Floor(rule, "handler-set map operations", n, 4)
+	c.snapshotRule(rule, c.ComputeLocksets(funcs), c.lockFieldName(c.Client, "hSet"))
 }
